@@ -617,7 +617,10 @@ pub enum Subsystem {
 }
 
 impl Subsystem {
-    fn from_frame(mut r: Frame) -> Option<Subsystem> {
+    /// Take the next `changed` entry out of the given (reply to `idle`) frame.
+    ///
+    /// A single reply may list several subsystems, call this until it returns `None`.
+    fn from_frame(r: &mut Frame) -> Option<Subsystem> {
         r.get("changed").map(|raw| match &*raw {
             "database" => Subsystem::Database,
             "message" => Subsystem::Message,
